@@ -90,6 +90,39 @@ def _prefix(events, t_cut, fast, k_cut=None):
     return out
 
 
+def _ordinal_prefix(events, k_cut, n_minutes):
+    """normal simulator, position-based cut: iteration n of the minute loop is recognised by the n-th matching call of the
+    first symbol (a function of positions only); the prefix ends before the 1m store update that precedes the k-th one.
+    Returns None when the trace does not have one matching call per input minute (then only the clock-based cut is
+    used) - the candle CONTENT of the calls is deliberately not consulted: a simulator that runs ahead shifts it."""
+    started, sym0, n, last_plain_add, end = False, None, 0, None, None
+    for i, e in enumerate(events):
+        kind = e['k']
+        if kind == 'daily':
+            started = True
+            continue
+        if not started:
+            continue
+        if kind == 'add1m' and not e.get('in_match') and (sym0 is None or e.get('symbol') == sym0):
+            last_plain_add = i
+        if kind == 'match_enter':
+            if sym0 is None:
+                sym0 = e['symbol']
+            if e['symbol'] != sym0:
+                continue
+            if n == k_cut:
+                end = last_plain_add if last_plain_add is not None and last_plain_add > i - 3 else i
+            n += 1
+    if end is None or n != n_minutes:
+        return None
+    out, seen_daily = [], False
+    for x in events[:end]:
+        if x['k'] == 'daily':
+            seen_daily = True
+        out.append(x if seen_daily else dict(x, t=None))
+    return out
+
+
 def _ser(e):
     return json.dumps(e, sort_keys=True, default=repr)
 
@@ -193,6 +226,19 @@ def run_job(job):
             if i >= len(pa) or i >= len(pb) or _ser(pa[i]) != _ser(pb[i]):
                 diff = i
                 break
+        if diff is None and not fast:
+            # second, position-based cut (robust against a simulator whose clock runs ahead together with its data)
+            oa, ob = _ordinal_prefix(ev, k, n), _ordinal_prefix(B['events'], k, n)
+            if oa is not None and ob is not None:
+                cnt['pairs_ordinal_cut'] = cnt.get('pairs_ordinal_cut', 0) + 1
+                if len(oa) != len(pa):
+                    cnt['ordinal_cut_differs_from_clock_cut'] = cnt.get('ordinal_cut_differs_from_clock_cut', 0) + 1
+                for i in range(max(len(oa), len(ob))):
+                    if i >= len(oa) or i >= len(ob) or _ser(oa[i]) != _ser(ob[i]):
+                        diff, pa, pb = i, oa, ob
+                        break
+            else:
+                cnt['ordinal_cut_not_applicable'] = cnt.get('ordinal_cut_not_applicable', 0) + 1
         if diff is not None:
             ea = pa[diff] if diff < len(pa) else None
             eb = pb[diff] if diff < len(pb) else None
